@@ -961,6 +961,7 @@ class UnitResult:
     rewrites: List[dict]
     twins: List[str]
     features: List[str]
+    fallbacks: List[dict] = field(default_factory=list)
 
 
 def strip_attrs_and_docs(text):
@@ -996,6 +997,7 @@ class Unit:
         self.features = []
         self.macros_out = []   # macro text emitted before verus!
         self.expand_macros = {}
+        self.fallbacks = []
 
     def emit(self, text, origin='<weave>', line0=0):
         for k, l in enumerate(text.split('\n')):
@@ -1049,10 +1051,26 @@ class Unit:
             sc = Contract(c.file, c.path, ret=c.ret, requires=c.requires, ensures=c.ensures)
             t = splice_fn(header + '{ unimplemented!() }', sc, site)
             return '#[verifier::external_body]\n' + t, line0
-        text = self.apply_rewrites(raw, site, c)
         if c is None:
             raise WeaveError('body without contract: %s (add an empty @fn entry)' % site)
-        return splice_fn(text, c, site, extra_ensures=extra_ensures, rename=rename), line0
+        try:
+            text = self.apply_rewrites(raw, site, c)
+            return splice_fn(text, c, site, extra_ensures=extra_ensures, rename=rename), line0
+        except LostAnchor as e:
+            # Fallback: the function's internal structure no longer matches the loop/hint anchors.  If the function is
+            # now loop-free, all of its obligations are first-order path conditions, so it is re-verified against its
+            # pre/postcondition alone (no loop contracts, no hints).  Otherwise the loss is reported (undecided).
+            c2 = Contract(c.file, c.path, ret=c.ret, requires=c.requires, ensures=c.ensures, decreases=c.decreases,
+                          ghostparams=c.ghostparams, ghostargs=c.ghostargs, attrs=c.attrs,
+                          rewrites=[r for r in c.rewrites if r in ('R5',) or r.startswith('R17')])
+            c2.ats = [a for a in c.ats if a[0] == 'fn_start' and 'let ghost' not in a[2]]
+            text = self.apply_rewrites(raw, site, c2)
+            _, loops = find_loops(split_fn(text)[1])
+            if loops:
+                raise
+            if not any(f.get('fallback') == site for f in self.fallbacks):
+                self.fallbacks.append({'fallback': site, 'reason': str(e)})
+            return splice_fn(text, c2, site, extra_ensures=extra_ensures, rename=rename), line0
 
     def build(self):
         upath = os.path.join(VERIF, 'units', self.name + '.unit')
@@ -1100,6 +1118,23 @@ class Unit:
                 self.emit_file(e[1])
             else:
                 body_entries.append(e)
+        # `env FILE`: stand-ins for every contracted fn of FILE not otherwise listed (so that code which starts
+        # calling another existing API function still finds it in the unit)
+        listed = set((e[1], e[2]) for e in body_entries if e[0] in ('body', 'standin'))
+        expanded = []
+        for e in body_entries:
+            if e[0] == 'env':
+                for (f, pth), c in self.contracts.items():
+                    if f == e[1] and (f, pth) not in listed:
+                        try:
+                            self.repo.item(f, pth)
+                        except LostAnchor:
+                            continue
+                        expanded.append(('standin', f, pth))
+                        listed.add((f, pth))
+            else:
+                expanded.append(e)
+        body_entries = expanded
         self.emit('use vstd::prelude::*;')
         self.emit('verus! {')
         open_impl = None
@@ -1209,7 +1244,7 @@ class Unit:
             self.lines.insert(pre_feature_idx, ('#![feature(%s)]' % ', '.join(self.features), '<weave>', 0))
         text = '\n'.join(l for l, _, _ in self.lines) + '\n'
         linemap = [(o, ln) for _, o, ln in self.lines]
-        return UnitResult(text, linemap, self.functions, self.standins, self.log.entries, self.twins, self.features)
+        return UnitResult(text, linemap, self.functions, self.standins, self.log.entries, self.twins, self.features, self.fallbacks)
 
 
 if __name__ == '__main__':
